@@ -231,6 +231,25 @@ class C10(core.Prop):
                 return "parser-rejects: str_to_num(%r, %s) fails (%s) on a valid INDI number" % (c["text"], k, obs[k])
             if (obs[k]["type"] == "int" and b != d) or (obs[k]["type"] == "float" and float(d) != float(b)):
                 return "parse-value: str_to_num(%r) = %s, denotes %s" % (c["text"], float(b), float(d))
+        # the same text as a peer sends it: inside an XML newNumberVector, through the parser, to a driver's number elements
+        ep = obs.get("as_elem") or {}
+        if ep.get("raised"):
+            return "element-raised: a newNumberVector carrying %r raised %s" % (c["text"], ep["raised"])
+        if not ep.get("skipped"):
+            t = c["text"].replace("\r\n", "\n").replace("\r", "\n").strip()
+            dd = ref_denote(t)
+            if ep.get("rejected"):
+                if dd is not None:
+                    return "element-rejects: a newNumberVector carrying the valid number %r is rejected by the parser" % t
+            else:
+                for v in ep["values"]:
+                    if dd is None:
+                        if not v.get("unchanged"):
+                            return "element-accepts: a number element took a value from %r, which is no INDI number" % t
+                        continue
+                    b = as_frac(v) if not v.get("unchanged") else None
+                    if b is None or float(b) != float(dd):
+                        return "element-value: a peer sent %r (denotes %s), the number element holds %s" % (t, float(dd), v)
         return None
 
     def nontrivial(self, c, obs):
